@@ -30,7 +30,7 @@ EXPLANATION = (
     "dialect differences between python re/numpy and rust."
 )
 LEVEL_RULE = "one obligation per (check, option assignment, backend) / signature / twin effect site"
-FLOORS = {"R1": 40, "R2": 1, "R3": 40, "R4": 10, "R5": 4, "R6": 2, "R7": 1, "R8": 2, "R9": 2, "R10": 1}
+FLOORS = {"R1": 40, "R2": 1, "R3": 40, "R4": 10, "R5": 4, "R6": 2, "R7": 1, "R8": 2, "R9": 2, "R10": 1, "R11": 1}
 
 PD = "pandera/backends/pandas/builtin_checks.py"
 PL = "pandera/backends/polars/builtin_checks.py"
@@ -421,6 +421,13 @@ def r6_no_truthiness_of_default(ctx, ix=None):
     ctx.stats["truthiness_tests_of_default"] = n
 
 
+def _ancestors_within(node, root):
+    p_ = getattr(node, "_parent", None)
+    while p_ is not None and p_ is not root:
+        yield p_
+        p_ = getattr(p_, "_parent", None)
+
+
 def r7_polars_default_fills_nulls(ctx):
     """pandas fills every missing value of a column with its default (`fillna`).  polars distinguishes null from NaN,
     so the fill expression of the polars column backend must apply `fill_null` on every path (a float column may
@@ -442,8 +449,14 @@ def r7_polars_default_fills_nulls(ctx):
 
     def fills(expr, nid, seen):
         """every value `expr` may have at node nid went through .fill_null(...)"""
-        if any(isinstance(x, ast.Call) and callee_last(x) == "fill_null" for x in ast.walk(expr)):
+        if isinstance(expr, ast.IfExp):
+            return fills(expr.body, nid, seen) and fills(expr.orelse, nid, seen)
+        if any(isinstance(x, ast.Call) and callee_last(x) == "fill_null" for x in ast.walk(expr)
+               if not any(isinstance(p_, ast.IfExp) for p_ in _ancestors_within(x, expr))):
             return True
+        for sub in [x for x in ast.walk(expr) if isinstance(x, ast.IfExp)]:
+            if fills(sub, nid, seen):
+                return True
         names = [x for x in ast.walk(expr) if isinstance(x, ast.Name) and isinstance(x.ctx, ast.Load)]
         for nm in names:
             defs = rd.get(nid, {}).get(nm.id, set())
@@ -616,6 +629,55 @@ def r10_polars_defaults_skip_absent_columns(ctx):
                "required=False)}).validate(pl.DataFrame({'a':[1]})) raises polars ColumnNotFoundError; pandas accepts", f0.loc(c))
 
 
+def r11_polars_nullable_counts_nulls(ctx):
+    """`nullable=False` rejects missing values.  pandas has one kind (`isna`); polars has null and, for floats, NaN.  The
+    polars nullable check therefore tests `is_not_null()` on every path and may add `is_not_nan()` for floats.
+    `is_not_nan()` alone answers null for a null cell, and polars aggregations / filters skip null answers - a float
+    column of Nones passes on polars and fails on pandas."""
+    ix = ctx.ix
+    m = ix.module("pandera/backends/polars/components.py")
+    cb = m.classes.get("ColumnBackend")
+    f0 = cb.lookup("check_nullable") if cb is not None else None
+    if f0 is None:
+        raise AnalysisError("polars ColumnBackend.check_nullable missing")
+    ctx.touched(f0)
+    f = expanded(ix, f0)
+    cfg = cfg_of(f.node)
+    rd = cfg.reaching_defs()
+    sinks = [c for c in calls_in(f.node) if callee_last(c) == "select" and c.args and isinstance(c.func, ast.Attribute)
+             and isinstance(c.func.value, ast.Name) and c.func.value.id == f0.positional[1]]
+    if not sinks:
+        raise AnalysisError("polars check_nullable: `check_obj.select(<null test>)` not found")
+
+    def tests_null(expr, nid, seen):
+        if isinstance(expr, ast.IfExp):   # both alternatives have to ask
+            return tests_null(expr.body, nid, seen) and tests_null(expr.orelse, nid, seen)
+        if any(isinstance(x, ast.Call) and callee_last(x) in ("is_not_null", "is_null") for x in ast.walk(expr)
+               if not any(isinstance(p_, ast.IfExp) for p_ in _ancestors_within(x, expr))):
+            return True
+        for sub in [x for x in ast.walk(expr) if isinstance(x, ast.IfExp)]:
+            if tests_null(sub, nid, seen):
+                return True
+        for nm in [x for x in ast.walk(expr) if isinstance(x, ast.Name) and isinstance(x.ctx, ast.Load)]:
+            defs = rd.get(nid, {}).get(nm.id, set())
+            real = [d for d in defs if cfg.nodes[d].kind == "stmt" and isinstance(cfg.nodes[d].ast, (ast.Assign, ast.AnnAssign))]
+            if not real or len(real) != len(defs):
+                continue
+            if all((d, nm.id) in seen or tests_null(cfg.nodes[d].ast.value, d, seen | {(d, nm.id)}) for d in real):
+                return True
+        return False
+
+    from ..util import enclosing_stmt
+    for c in sinks[:1]:
+        node = cfg.node_of(enclosing_stmt(c))
+        ok = node is not None and tests_null(c.args[0], node.id, frozenset())
+        ctx.ob("R11", f0, "polars check_nullable tests is_not_null on every path (is_not_nan alone skips nulls)", ok,
+               "every definition reaching the null test applies is_not_null" if ok else
+               f"some path reaches `{txt(c)[:50]}` with a test that never asks is_not_null (floats: is_not_nan only): a null cell yields a null answer, which "
+               "`all()` and the failure-case filter skip - pl.DataFrame({'a': [None, None]}, schema={'a': pl.Float64}) passes Column(float, nullable=False)",
+               f0.loc(c))
+
+
 def r1_pyspark(ctx):
     """thorough: pyspark forms where expressible (best effort, never a VIOLATION source on unknown forms)."""
     ix = ctx.ix
@@ -649,6 +711,7 @@ def run(ctx):
     r8_add_missing_columns_keeps_frame(ctx)
     r9_polars_default_is_literal(ctx)
     r10_polars_defaults_skip_absent_columns(ctx)
+    r11_polars_nullable_counts_nulls(ctx)
     if ctx.tier == "thorough":
         r1_pyspark(ctx)
     ctx.assume("pandas operators/str accessors and polars expression methods have their documented element-wise meaning")
